@@ -17,6 +17,7 @@ type gctx struct {
 	r        *rand.Rand
 	classes  []javagen.Import // project classes (pkg, name) of selected files
 	external []javagen.Import
+	cur      *javagen.File // the file whose statements are being generated
 }
 
 var pkgs = []string{"com.acme.blog", "com.acme.blog.repo", "org.x"}
@@ -91,7 +92,18 @@ func (g *gctx) expr(depth int, v *vis, allowLambda bool) javagen.Expr {
 			for body.K != "call" && body.K != "new" {
 				body = g.call(depth-1, v)
 			}
-			args = append(args, javagen.Expr{K: "lambda", Text: "it", Body: &body})
+			lam := javagen.Expr{K: "lambda", Text: "it", Body: &body}
+			if g.cur != nil && r.Intn(2) == 0 {
+				// an explicitly typed parameter of a plain project type, used as the receiver of the body's call
+				c := g.classes[r.Intn(len(g.classes))]
+				if c.Pkg != g.cur.Pkg {
+					g.addImport(g.cur, c)
+				}
+				lam.Type = c.Name
+				onIt := javagen.Expr{K: "call", RecvKind: "var", Recv: "it", Callee: g.pick(callees), Args: []javagen.Expr{}}
+				lam.Body = &onIt
+			}
+			args = append(args, lam)
 		} else {
 			args = append(args, g.expr(depth-1-r.Intn(2), v, allowLambda))
 		}
@@ -146,6 +158,7 @@ func (g *gctx) call(depth int, v *vis) javagen.Expr {
 
 func (g *gctx) stmts(f *javagen.File, depth int, v *vis, n int) []javagen.Stmt {
 	r := g.r
+	g.cur = f
 	out := []javagen.Stmt{}
 	mark := len(v.names)
 	for i := 0; i < n; i++ {
